@@ -18,6 +18,8 @@ CONFIGS = {
     "set-set-unwelcome": dict(modes=("set", "set"), welcome_error=True),
     "set-set-third": dict(modes=("set", "set"), adversary=("third",)),
     "solo-alloc": dict(modes=("allocate",), nmsg=(1,)),
+    "set-set-internal-error": dict(modes=("set", "set"), adversary=("badhex",)),
+    "set-set-deferred-internal-error": dict(modes=("set", "set"), delegated=(False, False), adversary=("badhex",)),
 }
 
 
@@ -38,15 +40,23 @@ class CloseExplore(Explore):
     def violations(self, sim, when):
         out = []
         srv = sim.world.server
-        # internal failures (exceptions escaping entry points) are C14's subject; Boss.error() then reports closed at once
+        # "exactly one closed notification, nothing after it" also holds when the wormhole dies of an internal error
+        for i, c in enumerate(sim.cl):
+            ncl = getattr(c, "closed_calls", None)
+            if ncl is not None and ncl > 1:
+                out.append(("closed notified more than once", "%s: %d closed notifications" % (c.name, ncl)))
+            closed_idx = [k for k, e in enumerate(c.ev) if e[0] == "closed"] if c.delegated else []
+            if len(closed_idx) > 1:
+                out.append(("closed notified more than once", "%s: %r" % (c.name, c.ev)))
+            if closed_idx and closed_idx[0] != len(c.ev) - 1 and not c.errors:
+                # (after an internal error Boss.error() reports closed without stopping the connector, which may reconnect and
+                # deliver another welcome: that path is C14's subject, see known findings there)
+                out.append(("application event delivered after closed", "%s: %r" % (c.name, c.ev[closed_idx[0]:])))
+        # for the rest (verdict, resources) internal failures are C14's subject: Boss.error() reports closed at once, without the shutdown handshake
         if any(c.errors for c in sim.cl):
             return out
         for i, c in enumerate(sim.cl):
             closed_idx = [k for k, e in enumerate(c.ev) if e[0] == "closed"] if c.delegated else []
-            if len(closed_idx) > 1:
-                out.append(("closed notified more than once", "%s: %r" % (c.name, c.ev)))
-            if closed_idx and closed_idx[0] != len(c.ev) - 1:
-                out.append(("application event delivered after closed", "%s: %r" % (c.name, c.ev[closed_idx[0]:])))
             if closed_idx and c.conn is not None and c.svc.stop_d is None and not getattr(c.svc, "stopped", False):
                 out.append(("closed notified while the server connection is still up", c.name))
             if when != "settled":
